@@ -371,8 +371,12 @@ func (d *Datastore) Subscribe(req *sdcpb.SubscribeRequest, stream sdcpb.DataServ
 	// start periodic gets, TODO: optimize using cache RPC
 	wg := new(sync.WaitGroup)
 	wg.Add(len(req.GetSubscription()))
-	errCh := make(chan error, 1)
+	// every goroutine reports at most one error, nobody reads the channel before all of them
+	// are done, so it needs to hold one error per goroutine to never block a sender.
+	errCh := make(chan error, len(req.GetSubscription()))
 	doneCh := make(chan struct{})
+	// several goroutines can fail at the same time, the done channel must be closed just once.
+	closeDoneOnce := new(sync.Once)
 	for _, subsc := range req.GetSubscription() {
 		go func(subsc *sdcpb.Subscription) {
 			ticker := time.NewTicker(time.Duration(subsc.GetSampleInterval()))
@@ -389,7 +393,7 @@ func (d *Datastore) Subscribe(req *sdcpb.SubscribeRequest, stream sdcpb.DataServ
 					err := d.doSubscribeOnce(ctx, subsc, stream)
 					if err != nil {
 						errCh <- err
-						close(doneCh)
+						closeDoneOnce.Do(func() { close(doneCh) })
 						return
 					}
 				}
